@@ -359,7 +359,34 @@ fn roundtrip_ext(t: &mut Tape, ctx: &mut Ctx) -> R {
     let mut shapes: Vec<&'static str> = Vec::new();
     let n_ext = 1 + t.below(2);
     for _ in 0..n_ext {
-        match t.below(11) {
+        match t.below(12) {
+            11 => {
+                // foreign proprietary records that look like Elements fields in everything but the prefix: the
+                // subtype of an assigned `pset` field, and in the global map the exact shape of a blinding scalar
+                // (subtype 0x00, 32 bytes of key data, empty value). They must stay what they are.
+                let prefix: Vec<u8> = t.choose(&[&b"pse"[..], &b"psett"[..], &b"PSET"[..], &b""[..], &b"elements"[..], &b"pset_hww"[..]]).to_vec();
+                match t.below(3) {
+                    1 if !p.inputs().is_empty() => {
+                        let k = t.below(p.inputs().len());
+                        let key = ProprietaryKey { prefix, subtype: t.below(0x14) as u8, key: if t.bool() { vec![] } else { t.bytes(32) } };
+                        let vl = t.choose(&[0usize, 1, 8, 32, 33]);
+                        p.inputs_mut()[k].proprietary.insert(key, t.bytes(vl));
+                    }
+                    2 if !p.outputs().is_empty() => {
+                        let k = t.below(p.outputs().len());
+                        let key = ProprietaryKey { prefix, subtype: t.below(0x0c) as u8, key: if t.bool() { vec![] } else { t.bytes(32) } };
+                        let vl = t.choose(&[0usize, 1, 4, 8, 32, 33]);
+                        p.outputs_mut()[k].proprietary.insert(key, t.bytes(vl));
+                    }
+                    _ => {
+                        let scalar_shape = t.bool();
+                        let key = ProprietaryKey { prefix, subtype: if scalar_shape { 0 } else { t.below(3) as u8 }, key: t.bytes(32) };
+                        let vl = if scalar_shape { 0 } else { t.choose(&[0usize, 1, 32]) };
+                        p.global.proprietary.insert(key, t.bytes(vl));
+                    }
+                }
+                shapes.push("foreign-proprietary-lookalike");
+            }
             0 => {
                 // values the shared generators never draw: the zero tweak as issuance blinding nonce (what
                 // Input::from_txin stores for every new issuance), the zero asset blinding factor, a
